@@ -19,7 +19,31 @@ class _Stop(Exception):
     pass
 
 
+def same_keys(a, b):
+    """equal as collections of dictionary keys (1, 1.0 and True are one key, whatever spelling is listed), each once"""
+    a, b = list(a), list(b)
+    return len(a) == len(b) and len(set(a)) == len(a) and set(a) == set(b)
+
+
+def same_multiset(a, b):
+    a, b = list(a), list(b)
+    if len(a) != len(b):
+        return False
+    b = list(b)
+    for x in a:
+        if x in b:
+            b.remove(x)
+        else:
+            return False
+    return True
+
+
+EQMIX = [0, 1, 1.0, True, 2, 2.0, False, 0.0, 3]   # several spellings of equal keys (1 == 1.0 == True): one entry, as for dict
+
+
 def mk_key(i, keytype):
+    if keytype == "eqmix":
+        return EQMIX[i % len(EQMIX)]
     if keytype == "int":
         return i
     if keytype == "str":
@@ -192,7 +216,7 @@ def _drive(ctx, fs, kind, cap, ops, keytype):
                 n = len(d)
                 if op == "keys":
                     got = run("keys()", lambda: take(c.keys(), n + 2))
-                    ctx.need(sorted(got, key=repr) == sorted(d, key=repr), "%s/keys()/disagrees" % name,
+                    ctx.need(same_keys(got, d), "%s/keys()/disagrees" % name,
                              lambda: "keys() %r vs content %r" % (got, d))
                 elif op == "len":
                     pass
@@ -200,17 +224,20 @@ def _drive(ctx, fs, kind, cap, ops, keytype):
                     got = run("values()", lambda: take(c.values(), n + 2))
                     ctx.need(len(got) <= n or n == 0, "%s/values()/non-terminating" % name,
                              lambda: "values() yields more than len()=%d items: %r..." % (n, got[:6]))
-                    ctx.need(sorted(got, key=repr) == sorted(d.values(), key=repr), "%s/values()/disagrees" % name,
+                    ctx.need(same_multiset(got, d.values()), "%s/values()/disagrees" % name,
                              lambda: "values() %r does not agree with content %r" % (got, d))
                 elif op == "items":
                     got = run("items()", lambda: take(c.items(), n + 2))
                     ctx.need(len(got) <= n or n == 0, "%s/items()/non-terminating" % name,
                              lambda: "items() yields more than len()=%d items: %r..." % (n, got[:6]))
-                    ctx.need(sorted(got, key=repr) == sorted(d.items(), key=repr), "%s/items()/disagrees" % name,
+                    ctx.need(same_multiset(got, d.items()), "%s/items()/disagrees" % name,
                              lambda: "items() %r does not agree with content %r" % (got, d))
                 else:
                     r = run("==", lambda: c == dict(d))
                     ctx.need(r is True, "%s/==/unequal-to-own-content" % name, lambda: "cache == dict(content) is %r, content %r" % (r, d))
+                    if not d:
+                        rn = run("!=", lambda: c != {"x": 1})
+                        ctx.need(rn is True, "%s/!=/wrong" % name, "empty cache != non-empty dict is %r" % (rn,))
                     if d:
                         other = dict(d)
                         other[next(iter(other))] = "other"
@@ -231,7 +258,7 @@ def _drive(ctx, fs, kind, cap, ops, keytype):
                             ctx.nontrivial = True
                     if lru:  # any order is admissible afterwards: re-synchronise from the implementation
                         now = tuple(keys_now(op))
-                        if not ctx.need(sorted(now, key=repr) == sorted(d, key=repr), "%s/%s/changed-key-set" % (name, op),
+                        if not ctx.need(same_keys(now, d), "%s/%s/changed-key-set" % (name, op),
                                         lambda: "view operation changed the key set: %r vs %r" % (now, d)):
                             raise _Stop()
                         cands = {(p, now) for p, _ in cands}
@@ -374,7 +401,7 @@ def _drive(ctx, fs, kind, cap, ops, keytype):
                 raise _Stop()
             if not ctx.need(len(d) <= cap, "%s/%s/exceeds-max_size" % (name, op), lambda: "%d entries with max_size %d" % (len(d), cap)):
                 raise _Stop()
-            if not ctx.need(sorted(ks, key=repr) == sorted(d, key=repr), "%s/%s/keys-differ" % (name, op),
+            if not ctx.need(same_keys(ks, d), "%s/%s/keys-differ" % (name, op),
                             lambda: "iteration gives keys %r, content is %r after %r" % (ks, d, o)):
                 raise _Stop()
             if lru:
@@ -400,7 +427,7 @@ def _drive(ctx, fs, kind, cap, ops, keytype):
             if hasattr(c, "cache") and hasattr(c, "list") and isinstance(getattr(c, "cache"), dict):
                 try:
                     inner = [x[0] if lru else x.key for x in take(c.list, cap + 3)]
-                    ctx.need(sorted(inner, key=repr) == sorted(c.cache, key=repr), "%s/%s/dict-list-disagree" % (name, op),
+                    ctx.need(same_keys(inner, c.cache), "%s/%s/dict-list-disagree" % (name, op),
                              "internal dict and list disagree")
                 except (TypeError, AttributeError, IndexError):
                     pass
@@ -443,7 +470,7 @@ def decode(code, restore_heavy):
 def case_strategy(kind, restore_heavy=False):
     hist = st.one_of(common_codes(0, 12), common_codes(14, 40))
     return st.fixed_dictionaries({
-        "kind": st.just(kind), "cap": st.integers(1, 6), "keytype": st.sampled_from(["int", "int", "str", "tuple"]),
+        "kind": st.just(kind), "cap": st.integers(1, 6), "keytype": st.sampled_from(["int", "int", "str", "tuple", "eqmix"]),
         "ops": hist.map(lambda cs: [decode(c, restore_heavy) for c in cs])})
 
 
